@@ -72,7 +72,7 @@ def rich_world(seed, n_chroms=6, genes_per_chrom=3, groups=3, multimappers=True,
     rng = w.rng
     for ci in range(n_chroms):
         cname = "chr%d" % (ci + 1)
-        w.add_chrom(cname, 60000 + ci * 4321 + genes_per_chrom * 9000 + extra_len + (130000 if zoo else 0))
+        w.add_chrom(cname, 60000 + ci * 4321 + genes_per_chrom * 9000 + extra_len + (138000 if zoo else 0))
         pos = 1500
         for gi in range(genes_per_chrom):
             gid = "G%d_%d" % (ci + 1, gi + 1)
@@ -626,6 +626,25 @@ def gap_gene_locus(w, gid, chrom, p, strand):
     return [g, gh], p + 30600
 
 
+def dense_two_exon_locus(w, gid, chrom, p, strand, n=56, cov=6):
+    """One gene with n annotated two-exon isoforms arranged as an overlapping staircase (30 bp steps), each with `cov` exact full-length
+    reads: one read-covered region in which more than 50 short models are built (organelle-like density)."""
+    g = Gene(gid, chrom, strand)
+    for k in range(n):
+        a = p + 30 * k
+        ex = [(a, a + 149), (a + 400, a + 549)]
+        g.transcripts.append(Transcript("%s.t%d" % (gid, k + 1), gid, chrom, strand, ex, True, "dense-two-exon"))
+    for t in g.transcripts:
+        for intr in t.introns:
+            w.plant_sites(chrom, intr, strand)
+    w.genes.append(g)
+    for t in g.transcripts:
+        for _ in range(cov):
+            w.make_read(chrom, list(t.exons), polya=30 if strand == "+" else 0, polyt=30 if strand == "-" else 0, flag=0 if strand == "+" else 16,
+                        truth={"src": t.id, "class": "exact"})
+    return g, p + 30 * n + 549
+
+
 def near_site_novel_locus(w, gid, chrom, p, strand):
     """t1 = e1..e5, t2 = e1-e3-e5 (annotated); the unannotated isoform e1-e2-e3-e5' is a new combination of annotated introns except
     that its last junction (first for '-') sits 3 bp away from the annotated site of t2's intron: that intron is unannotated, although it
@@ -698,7 +717,7 @@ def gene_valley_locus(w, gid, chrom, p, strand):
 
 ZOO_ALL = ("ambiguous_only", "twins", "contested", "intronic", "apa", "alt_terminal", "shifted_site", "shared_chain", "same_coords",
            "one_bp_exon", "lowmapq_two_exon", "mono_only", "gap_gene", "gene_valley", "odd_chroms",
-           "near_site_novel", "low_cov_novel", "two_exon_alt_polya")
+           "near_site_novel", "low_cov_novel", "two_exon_alt_polya", "dense_two_exon")
 ZOO_NO_TIES = tuple(z for z in ZOO_ALL if z != "twins")
 
 
@@ -832,6 +851,10 @@ def add_zoo(w, parts=ZOO_ALL):
         if "low_cov_novel" in parts and ci == 2 % max(1, len(chroms_for_loci)) and room(6500):
             low_coverage_novel_locus(w, "ZLC" + tag, chrom, _free_pos(w, chrom), "+-"[ci % 2])
             placed.add("low_cov_novel")
+        if "dense_two_exon" in parts and chrom == max(chroms_for_loci, key=w.chrom_len) and room(5000):
+            # on the longest sequence (handled first)
+            dense_two_exon_locus(w, "ZDN" + tag, chrom, _free_pos(w, chrom, 3000), "+-"[ci % 2])
+            placed.add("dense_two_exon")
         if "gap_gene" in parts and ci == 1 and room(36000):
             gap_gene_locus(w, "ZGAP" + tag, chrom, _free_pos(w, chrom, 4000), "+-"[ci % 2])
             placed.add("gap_gene")
